@@ -107,6 +107,19 @@ pub fn exec(toks: &[&str]) -> String {
             }
             None => "bad-op".into(),
         },
+        ["ip-der", fam, hx] => {
+            // IpBlocks::take_from_with_family on a SEQUENCE OF IPAddressOrRange
+            let Some(b) = unhex(hx) else { return "bad-op".into() };
+            let family = if *fam == "4" { rpki::repository::resources::AddressFamily::Ipv4 } else { rpki::repository::resources::AddressFamily::Ipv6 };
+            match bcder::Mode::Der.decode(bytes::Bytes::from(b), |cons| IpBlocks::take_from_with_family(cons, family)) {
+                Err(_) => "err".into(),
+                Ok(c) => format!("blocks {}", show_ip(&c)),
+            }
+        }
+        ["ip-enc", a] => {
+            use bcder::encode::Values;
+            match ip_chain(a) { Some(c) => hex(c.encode_ref().to_captured(bcder::Mode::Der).as_slice()), None => "bad-op".into() }
+        }
         ["as-der", hx] => {
             // AsResources::take_from on the extension value
             let Some(b) = unhex(hx) else { return "bad-op".into() };
@@ -286,6 +299,34 @@ pub fn generate(ctx: &mut Ctx) {
             _ => {}
         }
         ctx.case(&format!("as-der {}", hex(&d)));
+    }
+    // RFC 3779 IP blocks in DER
+    for a in &sets_ip { ctx.case(&format!("ip-enc {}", show_blocks(a))); }
+    for _ in 0..(if thorough { 20_000 } else { 2_000 }) {
+        let v4 = rng.bool();
+        let width: u32 = if v4 { 32 } else { 128 };
+        let full: u128 = if v4 { 0xffff_ffff } else { u128::MAX };
+        let k = rng.below(5) as usize;
+        let pick = |rng: &mut Rng| -> u128 { (match rng.below(6) {
+            0 => rng.below(4) as u128, 1 => full - rng.below(4) as u128, 2 => (rng.below(256) as u128) << (width - 8),
+            3 => ((rng.below(256) as u128) << (width - 8)) | (full >> 8), 4 => (rng.u128() & full) & !((1u128 << rng.below(width as u64)) - 1),
+            _ => rng.u128() & full }) };
+        let mut parts = Vec::new();
+        for _ in 0..k {
+            let a = pick(&mut rng); let b = pick(&mut rng);
+            let (lo, hi) = if rng.chance(1, 12) { (a, b) } else { (a.min(b), a.max(b)) };
+            parts.push(crate::pki::ip_block(lo, hi, width, rng.chance(1, 6)));
+        }
+        let mut d = crate::der::seq(&parts);
+        match rng.below(12) {
+            0 => { let i = rng.below(d.len() as u64) as usize; d[i] ^= 1 << rng.below(8); }
+            1 => { let i = rng.below(d.len() as u64) as usize; d.truncate(i); }
+            2 => { d = crate::der::seq(&[crate::der::bits(0, &[0u8; 17])]); }
+            3 => { d = crate::der::seq(&[crate::der::bits(3, &[0x0a, 0xff])]); }
+            4 => { d = crate::der::seq(&[crate::der::bits(0, &rng.bytes(if v4 { 5 } else { 16 }))]); }
+            _ => {}
+        }
+        ctx.case(&format!("ip-der {} {}", if v4 { 4 } else { 6 }, hex(&d)));
     }
     // IPv6 text forms that std renders specially: IPv4-mapped / -compatible ranges, zero compression at either end
     for (lo, hi) in [(0xffffu128 << 32, (0xffffu128 << 32) | 0xffff_ffff), (0xffff_0a00_0000u128, 0xffff_0aff_ffff),
